@@ -27,19 +27,25 @@ enum Mode {
 }
 
 fn rank_and_hand(w: &[u32]) -> (u16, [u32; 5]) {
+    rank_and_hand_at(0, w)
+}
+
+/// ranks the hand stored at byte offset 4 * (k mod 4) of a 16-byte aligned block (see hands::at_offset)
+fn rank_and_hand_at(k: usize, w: &[u32]) -> (u16, [u32; 5]) {
+    use super::hands::at_offset;
     match w.len() {
-        5 => {
-            let (v, h) = Five::from([w[0], w[1], w[2], w[3], w[4]]).hand_rank_value_and_hand();
+        5 => at_offset(k, Five::from([w[0], w[1], w[2], w[3], w[4]]), |x| {
+            let (v, h) = x.hand_rank_value_and_hand();
             (v, h.to_arr())
-        }
-        6 => {
-            let (v, h) = Six::from([w[0], w[1], w[2], w[3], w[4], w[5]]).hand_rank_value_and_hand();
+        }),
+        6 => at_offset(k, Six::from([w[0], w[1], w[2], w[3], w[4], w[5]]), |x| {
+            let (v, h) = x.hand_rank_value_and_hand();
             (v, h.to_arr())
-        }
-        _ => {
-            let (v, h) = Seven::from([w[0], w[1], w[2], w[3], w[4], w[5], w[6]]).hand_rank_value_and_hand();
+        }),
+        _ => at_offset(k, Seven::from([w[0], w[1], w[2], w[3], w[4], w[5], w[6]]), |x| {
+            let (v, h) = x.hand_rank_value_and_hand();
             (v, h.to_arr())
-        }
+        }),
     }
 }
 
@@ -105,6 +111,12 @@ pub fn judge(case: &Case) -> Verdict {
         None => return Verdict::NotJudged("not distinct real cards: outside the property's domain".into()),
     };
     if entry == "witness" {
+        // all four memory placements must agree (a placement-dependent answer is reported as such)
+        if let Ok(rs) = guard(|| (0..4).map(|k| rank_and_hand_at(k, &w)).collect::<Vec<_>>()) {
+            if rs.iter().any(|r| *r != rs[0]) {
+                return Verdict::Violated { class: format!("{}:answer-depends-on-memory-placement", case.kind), expected: "the same answer wherever the hand is stored".into(), observed: format!("at offsets 0, 4, 8, 12 of a 16-byte block: {:?}", rs) };
+            }
+        }
         return match guard(|| rank_and_hand(&w)) {
             Err(p) => Verdict::Violated { class: format!("panic:{}", case.kind), expected: "a value and a witness".into(), observed: format!("panic: {}", p) },
             Ok((v, hand)) => {
@@ -146,6 +158,11 @@ pub fn judge(case: &Case) -> Verdict {
     if oracle().best_by_rules(&cards) != exp {
         monitor::machinery_fail("best-of-n oracles (a) and (b) disagree");
     }
+    if let Ok(rs) = guard(|| (0..4).map(|k| rank_and_hand_at(k, &w).0).collect::<Vec<_>>()) {
+        if rs.iter().any(|r| *r != exp) && rs.iter().any(|r| *r == exp) {
+            return Verdict::Violated { class: format!("wrong-value:{}:depends-on-memory-placement", case.kind), expected: format!("value {} wherever the hand is stored", exp), observed: format!("at offsets 0, 4, 8, 12 of a 16-byte block: {:?}", rs) };
+        }
+    }
     match guard(|| call_value(entry, &w)) {
         Err(p) => Verdict::Violated { class: format!("panic:{}", case.kind), expected: format!("value {}", exp), observed: format!("panic: {}", p) },
         Ok(None) => Verdict::NotJudged(format!("unknown entry point {}", entry)),
@@ -171,6 +188,8 @@ struct SpaceSpec<'a> {
     /// also run the other value entry points on the canonical order
     extra_entries: bool,
     full_universe: bool,
+    /// run this space in the "host logs at Trace level" configuration (see monitor::set_trace_logging)
+    trace: bool,
 }
 
 const H_CAT: usize = 0; // 9 slots: hands by category of the best hand
@@ -180,6 +199,9 @@ const H_WDIFF: usize = 31; // hands whose witness differs between explored order
 const H_LEN: usize = 32;
 
 fn sweep(ctx: &Ctx, rep: &mut Report, mode: Mode, sp: &SpaceSpec) {
+    if ctx.lean && sp.full_universe {
+        return; // lean run (unoptimised crate): sub-deck and history spaces only
+    }
     let o = oracle();
     let n = sp.n;
     let size_name = if n == 6 { "six" } else { "seven" };
@@ -204,6 +226,10 @@ fn sweep(ctx: &Ctx, rep: &mut Report, mode: Mode, sp: &SpaceSpec) {
         None => sp.orders.len(),
         Some(fixed) => fixed + 1,
     };
+    let was_trace = monitor::trace_logging();
+    if sp.trace {
+        monitor::set_trace_logging(true);
+    }
     let accs = par_parts(parts.len(), |pi| {
         let (a, b) = parts[pi];
         let mut acc = Acc::new(H_LEN);
@@ -257,7 +283,8 @@ fn sweep(ctx: &Ctx, rep: &mut Report, mode: Mode, sp: &SpaceSpec) {
                 monitor::beat(kind, &w64[..n]);
                 acc.cases += 1;
                 acc.calls += 1;
-                let r = guard(|| rank_and_hand(&arr));
+                // memory placement rotates with the case number: every hand meets every placement across its orders
+                let r = guard(|| rank_and_hand_at((hand_no as usize).wrapping_add(k), &arr));
                 match mode {
                     Mode::Value => {
                         if !matches!(r, Ok((v, _)) if v == best) {
@@ -307,6 +334,7 @@ fn sweep(ctx: &Ctx, rep: &mut Report, mode: Mode, sp: &SpaceSpec) {
         });
         acc
     });
+    monitor::set_trace_logging(was_trace);
     let acc = Acc::merged(accs);
     rep.add_space(&sp.name, &acc, t0, &sp.note);
     let pre = format!("{}:", sp.name);
@@ -356,24 +384,31 @@ fn run_mode(ctx: &Ctx, rep: &mut Report, mode: Mode) {
         // 6H x (P6 + reverse)
         let mut o6 = to_orders(p6());
         o6.push((0..6).rev().collect());
-        sweep(ctx, rep, mode, &SpaceSpec { name: "6H x (6 rotations + reverse)".into(), note: "all 20,358,520 six-card subsets; by the P6 covering fact every five-card sub-hand meets every slot combination".into(), n: 6, cards: full.clone(), orders: &o6, rotate: None, extra_entries: true, full_universe: true });
+        sweep(ctx, rep, mode, &SpaceSpec { name: "6H x (6 rotations + reverse)".into(), note: "all 20,358,520 six-card subsets; by the P6 covering fact every five-card sub-hand meets every slot combination".into(), n: 6, cards: full.clone(), orders: &o6, rotate: None, extra_entries: true, full_universe: true, trace: false });
         // 7H x (identity + one rotating member of P7)
         let o7 = to_orders(p7());
         let all6 = permutations(6);
         let all7 = permutations(7);
         for (name, cards) in small_sub_decks() {
-            sweep(ctx, rep, mode, &SpaceSpec { name: format!("sub-deck {} : 6-card hands x all 720 orders", name), note: "every six-card hand of a 12-card sub-deck in every slot order".into(), n: 6, cards: cards.clone(), orders: &all6, rotate: None, extra_entries: false, full_universe: false });
-            sweep(ctx, rep, mode, &SpaceSpec { name: format!("sub-deck {} : 7-card hands x all 5040 orders", name), note: "every seven-card hand of a 12-card sub-deck in every arrangement of all seven slots".into(), n: 7, cards, orders: &all7, rotate: None, extra_entries: false, full_universe: false });
+            sweep(ctx, rep, mode, &SpaceSpec { name: format!("sub-deck {} : 6-card hands x all 720 orders", name), note: "every six-card hand of a 12-card sub-deck in every slot order".into(), n: 6, cards: cards.clone(), orders: &all6, rotate: None, extra_entries: false, full_universe: false, trace: false });
+            sweep(ctx, rep, mode, &SpaceSpec { name: format!("sub-deck {} : 7-card hands x all 5040 orders", name), note: "every seven-card hand of a 12-card sub-deck in every arrangement of all seven slots".into(), n: 7, cards, orders: &all7, rotate: None, extra_entries: false, full_universe: false, trace: false });
         }
-        sweep(ctx, rep, mode, &SpaceSpec { name: "7H x (canonical + 1 rotating P7 order)".into(), note: "all 133,784,560 seven-card subsets in canonical order, plus for each hand one further member of P7 chosen by hand index (every member is applied to ~1/20 of the universe)".into(), n: 7, cards: full.clone(), orders: &o7, rotate: Some(1), extra_entries: false, full_universe: true });
+        let canon6: Vec<Vec<usize>> = vec![(0..6).collect()];
+        let canon7: Vec<Vec<usize>> = vec![(0..7).collect()];
+        sweep(ctx, rep, mode, &SpaceSpec { name: "6H canonical, host logging at Trace level".into(), note: "every six-card subset once more with a Trace-level logger installed (a verbose twin of the ranking path is a separate implementation)".into(), n: 6, cards: full.clone(), orders: &canon6, rotate: None, extra_entries: true, full_universe: true, trace: true });
+        let _ = &canon7;
+        for (name, cards) in small_sub_decks() {
+            sweep(ctx, rep, mode, &SpaceSpec { name: format!("sub-deck {} : 7-card hands x all 5040 orders, host logging at Trace level", name), note: "every seven-card hand of a 12-card sub-deck in every slot order with a Trace-level logger installed (all seven-card hands run under Trace in the thorough tier's overflow-checked profile)".into(), n: 7, cards, orders: &all7, rotate: None, extra_entries: false, full_universe: false, trace: true });
+        }
+        sweep(ctx, rep, mode, &SpaceSpec { name: "7H x (canonical + 1 rotating P7 order)".into(), note: "all 133,784,560 seven-card subsets in canonical order, plus for each hand one further member of P7 chosen by hand index (every member is applied to ~1/20 of the universe)".into(), n: 7, cards: full.clone(), orders: &o7, rotate: Some(1), extra_entries: false, full_universe: true, trace: false });
     } else {
         let o6 = permutations(6);
-        sweep(ctx, rep, mode, &SpaceSpec { name: "6H x all 720 orders".into(), note: "all six-card subsets in every slot order: the whole six-card domain".into(), n: 6, cards: full.clone(), orders: &o6, rotate: None, extra_entries: true, full_universe: true });
+        sweep(ctx, rep, mode, &SpaceSpec { name: "6H x all 720 orders".into(), note: "all six-card subsets in every slot order: the whole six-card domain".into(), n: 6, cards: full.clone(), orders: &o6, rotate: None, extra_entries: true, full_universe: true, trace: false });
         let o7 = to_orders(p7());
-        sweep(ctx, rep, mode, &SpaceSpec { name: "7H x P7 (21 orders)".into(), note: "all seven-card subsets; P7 puts every five-card sub-hand of every hand on every slot combination exactly once".into(), n: 7, cards: full.clone(), orders: &o7, rotate: None, extra_entries: true, full_universe: true });
+        sweep(ctx, rep, mode, &SpaceSpec { name: "7H x P7 (21 orders)".into(), note: "all seven-card subsets; P7 puts every five-card sub-hand of every hand on every slot combination exactly once".into(), n: 7, cards: full.clone(), orders: &o7, rotate: None, extra_entries: true, full_universe: true, trace: false });
         let all7 = permutations(7);
-        sweep(ctx, rep, mode, &SpaceSpec { name: "sub-deck {A,K,Q,J,T,9} x all 5040 orders".into(), note: "every 7-card hand of the 24-card sub-deck in every slot order".into(), n: 7, cards: sub_deck(&[12, 11, 10, 9, 8, 7]), orders: &all7, rotate: None, extra_entries: false, full_universe: false });
-        sweep(ctx, rep, mode, &SpaceSpec { name: "sub-deck {A,8,5,4,3,2} x all 5040 orders".into(), note: "every 7-card hand of the 24-card sub-deck (wheels, low cards) in every slot order".into(), n: 7, cards: sub_deck(&[12, 6, 3, 2, 1, 0]), orders: &all7, rotate: None, extra_entries: false, full_universe: false });
+        sweep(ctx, rep, mode, &SpaceSpec { name: "sub-deck {A,K,Q,J,T,9} x all 5040 orders".into(), note: "every 7-card hand of the 24-card sub-deck in every slot order".into(), n: 7, cards: sub_deck(&[12, 11, 10, 9, 8, 7]), orders: &all7, rotate: None, extra_entries: false, full_universe: false, trace: false });
+        sweep(ctx, rep, mode, &SpaceSpec { name: "sub-deck {A,8,5,4,3,2} x all 5040 orders".into(), note: "every 7-card hand of the 24-card sub-deck (wheels, low cards) in every slot order".into(), n: 7, cards: sub_deck(&[12, 6, 3, 2, 1, 0]), orders: &all7, rotate: None, extra_entries: false, full_universe: false, trace: false });
     }
     rep.assume("best-of-n oracle: minimum over subsets of the rule-derived class ordinal, cross-checked on every explored hand against a direct rule evaluator");
 }
@@ -404,10 +439,38 @@ fn representative_items(witness: bool) -> Vec<Case> {
 }
 
 pub fn run_c02(ctx: &Ctx, rep: &mut Report) {
-    if let Some((k, n)) = ctx.shard {
-        super::history::sharded_pairs(rep, 6, false, ctx.tier.thorough(), k, n);
-        super::history::sharded_pairs(rep, 7, false, ctx.tier.thorough(), k, n);
+    if ctx.probe {
+        // cold-start schedule sample: the first calls of 16 threads of a fresh process, on flush-heavy hands of every suit
+        let mut items: Vec<Vec<u32>> = Vec::new();
+        for s in 0..4u8 {
+            for top in [12u8, 10, 7, 5] {
+                let six: Vec<u32> = (0..6).map(|i| Card::new(top - i, s).word()).collect();
+                let mut seven = six.clone();
+                seven.push(Card::new(1, (s + 1) % 4).word());
+                let mut mixed = six.clone();
+                mixed[2] = Card::new(top - 2, (s + 3) % 4).word();
+                items.push(six);
+                items.push(seven);
+                items.push(mixed);
+            }
+        }
+        super::probe_body(rep, items.len(), &|i| {
+            let w = &items[i];
+            let size = if w.len() == 6 { "six" } else { "seven" };
+            confirm(judge, Case::w32(&format!("{}.hand_rank_value_and_hand.0", size), w)).map(|mut v| {
+                v.class = format!("cold-start:{}", v.class);
+                v
+            })
+        });
         return;
+    }
+    if let Some((k, n)) = ctx.shard {
+        super::history::sharded_pairs(rep, 6, false, ctx.tier.thorough(), ctx.lean, k, n);
+        super::history::sharded_pairs(rep, 7, false, ctx.tier.thorough(), ctx.lean, k, n);
+        return;
+    }
+    if !ctx.lean {
+        super::cold_start_probe(ctx, rep, if ctx.tier.thorough() { 24 } else { 8 });
     }
     run_mode(ctx, rep, Mode::Value);
     super::spawn_shards(ctx, rep, 16);
@@ -425,7 +488,7 @@ pub fn run_c02(ctx: &Ctx, rep: &mut Report) {
 pub fn run_c03(ctx: &Ctx, rep: &mut Report) {
     if let Some((k, n)) = ctx.shard {
         for nc in 5..=7 {
-            super::history::sharded_pairs(rep, nc, true, ctx.tier.thorough(), k, n);
+            super::history::sharded_pairs(rep, nc, true, ctx.tier.thorough(), ctx.lean, k, n);
         }
         return;
     }
@@ -434,6 +497,10 @@ pub fn run_c03(ctx: &Ctx, rep: &mut Report) {
     super::history2(rep, judge, &representative_items(true));
     for n in 5..=7 {
         super::history::space(rep, n, true, ctx.tier.thorough());
+    }
+    if ctx.lean {
+        rep.rule = "lean run".into();
+        return;
     }
     // identity clause: 5H x 120 orders
     let d = deck();
